@@ -969,6 +969,10 @@ func TestC16(t *testing.T) {
 			}
 		}
 	}
-	run.Main(t, "C16", cases, map[string]any{"variants": names, "positions": maxPos + 1, "actions": fmt.Sprint(allActions),
+	early := earlyCloseCases(p, env.Thorough(), env.Seed+1)
+	cases = append(cases, early...)
+	auth := authAlertCases(p, env.Thorough(), env.Seed+1)
+	cases = append(cases, auth...)
+	run.Main(t, "C16", cases, map[string]any{"early_close_cases": len(early), "authentic_alert_cases": len(auth), "variants": names, "positions": maxPos + 1, "actions": fmt.Sprint(allActions),
 		"after_loss_variants": lossy, "after_loss_masks": len(masks) - 1, "after_loss_actions": fmt.Sprint(lossActs)})
 }
